@@ -207,6 +207,11 @@ func RegisterSV(ld *Loaded) {
 	})
 	reg("Setenv", func(fr *frame, args []value) value {
 		p := fr.i.path
+		if _, sym := args[1].(symString); sym {
+			// clearing a variable whose name is symbolic: every variable the
+			// harness did not set is unset in the model anyway
+			return nil
+		}
 		p.env[p.concreteString(args[1], "env name")] = p.concreteString(args[2], "env value")
 		return nil
 	})
